@@ -138,6 +138,9 @@ class BuildError(Exception):
     pass
 
 
+RACE_REPORTS = []
+
+
 # ---------------------------------------------------------------------------
 # op files and blocks
 # ---------------------------------------------------------------------------
@@ -204,7 +207,8 @@ def run_impl(binary, ops, watchdog_ms=5000, memlimit="4GiB"):
     """run the Go executor; restart after a timeout / crash; returns one block per op"""
     results = [None] * len(ops)
     start = 0
-    env = dict(os.environ, VERIF_WATCHDOG_MS=str(watchdog_ms), GOMEMLIMIT=memlimit, GOTRACEBACK="single")
+    env = dict(os.environ, VERIF_WATCHDOG_MS=str(watchdog_ms), GOMEMLIMIT=memlimit, GOTRACEBACK="single",
+               GORACE="halt_on_error=1 exitcode=66")
     has_reset = any(o.line.startswith("reset") for o in ops)
     stderr_tail = ""
     while start < len(ops):
@@ -233,6 +237,10 @@ def run_impl(binary, ops, watchdog_ms=5000, memlimit="4GiB"):
             if last >= len(ops):
                 break
             kind = "res oom" if ("out of memory" in p.stderr or "cannot allocate" in p.stderr) else "res crash"
+            if "DATA RACE" in p.stderr:
+                kind = "res race"
+                i0 = p.stderr.index("DATA RACE")
+                RACE_REPORTS.append(p.stderr[max(0, i0 - 40):i0 + 2500])
             results[last] = [kind]
             log("impl crashed on op %d (%s): %s" % (last, kind, p.stderr[-800:]))
         # skip to the next history
@@ -584,12 +592,13 @@ def run_property(prop, tier, seed):
     dist = {}
     ops = None
 
-    if os.path.exists(MODEL) and "impl" in bins and spec.get("generators") is not None:
+    implname = spec.get("impl_bin", "impl")
+    if os.path.exists(MODEL) and implname in bins and spec.get("generators") is not None:
         lines = gen_ops(prop, spec, tier, seed)
         ops = parse_ops(lines)
         if ops:
             model = run_model(ops)
-            impl, _ = run_impl(bins["impl"], ops, watchdog_ms=spec.get("watchdog_ms", 5000 if tier == "quick" else 10000))
+            impl, _ = run_impl(bins[implname], ops, watchdog_ms=spec.get("watchdog_ms", 5000 if tier == "quick" else 10000))
             fl = compare(prop, spec, ops, impl, model)
             failures += fl
             evaluations += len(ops)
@@ -650,7 +659,8 @@ def run_property(prop, tier, seed):
             path = write_replay(prop, seed, f, ops, extra + ["correspondence between lean/Goflow model and the implementation no longer holds on this input"])
             print("VIOLATION property=%s replay=%s no-failing-input-found" % (prop, path))
         else:
-            path = write_replay(prop, seed, f, ops if "idx" in f else None, extra + f.get("replay_lines", []))
+            path = write_replay(prop, seed, f, ops if "idx" in f else None, extra + f.get("replay_lines", []) +
+                                [l for r in RACE_REPORTS[:1] for l in r.splitlines()])
             print("VIOLATION property=%s replay=%s" % (prop, path))
         rc = 1
     elif broken:
